@@ -1650,6 +1650,25 @@ def mon_C17(rng, budget, tier):
             ref = hp.Wt(x, t)
             if abs(D(got) - ref) > D(20 * t + 1e-13 / t):
                 mon.fail("wt within 20t + 1e-13/t of W~", case, "wt(%r, %r) = %r, W~ = %s, bound %r" % (x, t, got, +ref, 20 * t + 1e-13 / t))
+    # draw margins above 1e-2 (t = kappa / c gets there for small beta or a large kappa): the range clauses hold for
+    # every t (C17_v_nonneg, C17_w_range, C17_wt_range), so they are checked there too; the accuracy clauses are not
+    for _ in range(max(200, budget // 20)):
+        if mon.full:
+            break
+        x = rng.choice([rng.uniform(-10, 10), rng.uniform(-40, 40), rng.choice([th, -th]) + rng.uniform(-1, 1)])
+        t = rng.choice([0.05, 0.34, 1.0, gen.logu(rng, 1e-2, 2.0)])
+        for fn in ("v", "w", "vt", "wt"):
+            case = {"fn": fn, "x": x, "t": t, "large_margin": True}
+            mon.case(case)
+            try:
+                got = getattr(wc, fn)(x, t)
+            except Exception as ex:  # noqa: BLE001
+                mon.fail("exception", case, "%s(%r, %r): %s: %s" % (fn, x, t, type(ex).__name__, ex))
+                continue
+            if not math.isfinite(got):
+                mon.fail("finite", case, "%s(%r, %r) = %r" % (fn, x, t, got))
+            elif (fn == "v" and got < 0) or (fn in ("w", "wt") and not (-1e-12 <= got <= 1.0 + 1e-12)):
+                mon.fail("%s in range" % fn, case, "%s(%r, %r) = %r" % (fn, x, t, got))
     # "for every finite x": astronomically large arguments must still give finite values in range (no exception)
     for x in [s_ * m_ for s_ in (1.0, -1.0) for m_ in (1e3, 1e10, 1e100, 1.3e154, 1.4e154, 1e200, 1e308)]:
         for t in (1e-8, 1e-5, 1e-2):
